@@ -2387,6 +2387,12 @@ func c16Gen(r *Rng) (c16Scn, string) {
 func init() {
 	Register("C16", func(c *Ctx) {
 		for _, raw := range c.Corpus {
+			var ew c16EnrichWrap
+			if err := jsonUnmarshalStrict(raw, &ew); err == nil && ew.Enrich.Obj.Kind != "" {
+				obs, mons := c16RunEnrich(&ew.Enrich)
+				c.Emit(ew, obs, mons, "corpus/enrich")
+				continue
+			}
 			var s c16Scn
 			if err := jsonUnmarshalStrict(raw, &s); err == nil && len(s.Steps) > 0 {
 				obs, mons := c16Run(&s)
@@ -2398,6 +2404,14 @@ func init() {
 			every = 15
 		}
 		for i := 0; i < c.N; i++ {
+			// content dimension (c16_enrich.go): every 8th scenario is one package object put through
+			// addLabels / enrichControlledResource of the real Establish
+			if i%8 == 7 {
+				es, ecls := c16GenEnrich(c.Rng)
+				eobs, emons := c16RunEnrich(&es)
+				c.Emit(c16EnrichWrap{Enrich: es}, eobs, emons, ecls)
+				continue
+			}
 			s, cls := c16Gen(c.Rng)
 			base := mustJSON(s)
 			obs, mons := c16Run(&s)
